@@ -33,4 +33,12 @@ theorem cadenceOK_refuses (i p : Int) (n : Nat) (hn : 1 ≤ n)
     intro _ h1 h2
     omega
 
+/-- The clause says what the statement says, for any arrival times whatever (no ticker assumed):
+it holds exactly when three polls or more were seen and every distance between consecutive polls
+(the first measured from the store's start) lies within a tenth of the interval on either side. -/
+theorem cadenceOK_iff (i : Int) (polls : List Int) :
+    cadenceOK i polls = true ↔
+      3 ≤ polls.length ∧ ∀ g ∈ gaps 0 polls, i - i / 10 ≤ g ∧ g ≤ i + i / 10 := by
+  simp [cadenceOK, List.all_eq_true]
+
 end Setec.Cadence
